@@ -350,6 +350,14 @@ pub const TAG_C17: u64 = 17;
 
 pub fn c06_run(seed: u64, i: u64, mon: &mut Mon, found: &mut Vec<Found>) {
     let mut rng = Rng::new(run_seed(seed, TAG_C06, i));
+    if rng.chance(1, 5) {
+        // mixed-operation histories on a benign stream against the slice reader
+        for _ in 0..8 {
+            hist::c06_history_run(&mut rng, mon, found);
+        }
+        mon.count("scenarios");
+        return;
+    }
     let mut opts_ix = opts::draw_parse(&mut rng);
     let long = rng.chance(1, 25);
     let (input, fam) = draw_text(&mut rng, &mut opts_ix, if long { 4096 } else { 512 });
